@@ -83,7 +83,7 @@ def strategy(tier):
         "blocklimit": st.sampled_from([1, 2, 2, 4, 4, 8]),
         "delete": st.lists(st.integers(0, 200), max_size=8),
         "optimize": st.sampled_from([False, False, False, True]),
-        "schema": st.fixed_dictionaries({"t_boost": st.sampled_from([1.0, 2.0])}),
+        "schema": st.fixed_dictionaries({"t_boost": st.sampled_from([1.0, 2.0, 1.1, 0.3])}),
         "queries": st.lists(query_s(), min_size=4, max_size=4),
         "weighting": weighting_s(),
     })
